@@ -33,6 +33,7 @@ def main():
     ap.add_argument('--tier', default='quick')
     ap.add_argument('--skip-suite', action='store_true')
     ap.add_argument('--no-store', action='store_true')
+    ap.add_argument('--only-suite', action='store_true', help='confirm demo + suite only; keep earlier check results')
     a = ap.parse_args()
     wt = Path(a.worktree)
     src = wt / 'seedout' / a.index
@@ -59,6 +60,8 @@ def main():
     finally:
         sh('git checkout -- sweetpea acceptance', cwd=wt)
     print('demo without: %s, with: %s, suite: %s' % (rc0, report.get('demo_with_change'), report.get('suite_with_change')))
+    if a.only_suite:
+        a.checks = ''
     # checks against a fresh scratch worktree of /repo's HEAD with the patch applied (sys.path beats the editable
     # finder, so PYTHONPATH=<worktree> makes every check import that tree); /repo itself is not touched
     import tempfile
@@ -75,7 +78,7 @@ def main():
             report['applies_to_repo'] = True
             res = {}
             env2 = dict(os.environ, PYTHONPATH=scratch, VERIF_EVIDENCE_DIR=evdir, VERIF_REPLAY_DIR=evdir)
-            for chk in (a.checks or a.prop).split(','):
+            for chk in ([] if a.only_suite else (a.checks or a.prop).split(',')):
                 rc, out = sh('%s -m vt.check %s --tier %s' % (PY, chk, a.tier), cwd=ROOT, env=env2, timeout=7200)
                 lines = [l for l in out.splitlines() if l.startswith('VIOLATION')]
                 res[chk] = {'exit': rc, 'violations': len(lines), 'summary': [l for l in out.splitlines() if l.startswith(chk)][-1:]}
@@ -97,6 +100,17 @@ def main():
                 meta = json.loads((src / 'meta.json').read_text())
             except Exception:
                 meta = {'raw': (src / 'meta.json').read_text()}
+        prev = {}
+        if (dst / 'meta.json').exists():
+            try:
+                prev = json.loads((dst / 'meta.json').read_text()).get('confirmed', {})
+            except Exception:
+                prev = {}
+        if 'suite_with_change' not in report and prev.get('suite_with_change'):
+            report['suite_with_change'] = prev['suite_with_change']      # confirmed in an earlier run of this tool
+        merged = dict(prev.get('checks', {}))
+        merged.update(report.get('checks', {}))
+        report['checks'] = merged
         meta['confirmed'] = report
         meta['how_to_run'] = ('git -C /repo apply /verif/seeded/%s/patch.diff; cd /verif && %s -m vt.check %s --tier quick; '
                               'git -C /repo checkout -- .   (demo: PYTHONPATH=<tree> %s demo.py)' % (a.seed_id, PY, a.prop, PY))
